@@ -206,6 +206,9 @@ Constructed == <<
   D("L-bool-65536", TSeqOf(TBool, R(1, 65536))),
   D("L-seq", TSeqOf(TSeq(<<C(I07), O(TBool)>>, FALSE, <<>>), CNone)),
   D("L-ref", TSeqOf(TRef("K-ib"), CNone)),
+  D("K-in", TChoice(<<C(Int0), C(TNull)>>, FALSE, <<>>)),
+  D("M-in", TSetOf(TRef("K-in"), CNone)),       \* elements with different tags and lengths: the canonical order is by octets
+
   D("L-str", TSeqOf(IA5, CNone)),
   D("L-enum", TSeqOf(TRef("E-abc"), CNone)),
   D("L-rec", TSeqOf(TRef("L-rec"), CNone)),
@@ -240,6 +243,9 @@ CommonDefs == <<
   D("K-ext2", TChoice(<<C(I07), C(TBool)>>, TRUE, <<C(TNull), C(IA5)>>)),
   D("K-nest", TChoice(<<C(TRef("K-ib")), C(TNull), C(TSeq(<<C(I07)>>, FALSE, <<>>))>>, FALSE, <<>>)),
   D("L-ref", TSeqOf(TRef("K-ib"), CNone)),
+  D("K-in", TChoice(<<C(Int0), C(TNull)>>, FALSE, <<>>)),
+  D("M-in", TSetOf(TRef("K-in"), CNone)),       \* elements with different tags and lengths: the canonical order is by octets
+
   D("M-seq", TSetOf(TSeq(<<C(I07), O(TBool)>>, FALSE, <<>>), CNone)),
   \* element encodings of more than 32 octets (they outgrow the first buffer of the SET OF sorter)
   D("Q-pair", TSeq(<<C(TOctets(R(18, 20))), C(TOctets(R(18, 20)))>>, FALSE, <<>>)),
